@@ -9,9 +9,8 @@ use crate::mast as m;
 use crate::mon::{self, DiagRec, LintWhich};
 use crate::render::{render, Spelling};
 use crate::rng::{hash_str, Rng};
-use rrss::analysis::visit::{self, Combine, ExprVisitorRunner, Visit, VisitExpr, VisitProgram};
 use rrss::frontend::ast::*;
-use rrss::frontend::source_range::{Line, SourceRange};
+use rrss::frontend::source_range::Line;
 use rrss::linter::render::Render;
 
 #[derive(Clone, Debug, PartialEq)]
@@ -28,71 +27,137 @@ struct Mention {
     role: Role,
 }
 
-#[derive(Default)]
-struct Unit;
-impl Combine for Unit {
-    fn combine(self, _: Self) -> Self {
-        Unit
+/// Every variable-name mention in traversal order = field order (C16 pins that order for the visitor
+/// framework; this walk is written against the syntax tree directly, NOT through rrss's visitors, so a
+/// traversal that presents nodes to the passes in another order shows up here as wrong reports).
+struct Mentions(Vec<Mention>);
+
+impl Mentions {
+    fn name(&mut self, n: &WithRange<VariableName>, role: Role) {
+        self.0.push(Mention { text: n.0.render(), line: n.as_ref().line(), role });
     }
-}
-
-/// records every variable-name mention in traversal order (the traversal itself is rrss's own
-/// default one — C16 checks it; only calls are re-dispatched here to tell callee names apart)
-struct MentionRecorder {
-    mentions: Vec<Mention>,
-    definition_ranges: Vec<SourceRange>,
-    next_is_callee: bool,
-}
-
-impl Visit for MentionRecorder {
-    type Output = Unit;
-    type Error = ();
-}
-
-impl VisitExpr for MentionRecorder {
-    fn visit_variable_name(&mut self, n: WithRange<&VariableName>) -> visit::Result<Self> {
-        let role = if self.next_is_callee {
-            Role::Callee
-        } else if self.definition_ranges.contains(&n.1) {
-            Role::Definition
-        } else {
-            Role::Plain
-        };
-        self.next_is_callee = false;
-        self.mentions.push(Mention { text: n.0.render(), line: n.line(), role });
-        Ok(Unit)
-    }
-    fn visit_function_call(&mut self, f: &FunctionCall) -> visit::Result<Self> {
-        self.next_is_callee = true;
-        self.visit_variable_name(f.name.as_ref())?;
-        for a in &f.args {
-            self.visit_expression(a)?;
+    fn ident(&mut self, i: &WithRange<Identifier>) {
+        if let Identifier::VariableName(v) = &i.0 {
+            self.0.push(Mention { text: v.render(), line: i.1.line(), role: Role::Plain });
         }
-        Ok(Unit)
     }
-}
-
-fn definition_ranges(b: &Block, out: &mut Vec<SourceRange>) {
-    if let Block::NonEmpty(ss) = b {
-        for s in ss {
-            match s {
-                Statement::Function(f) => {
-                    out.push(f.name.1.clone());
-                    for p in &f.data.params {
-                        out.push(p.1.clone());
-                    }
-                    definition_ranges(&f.data.body, out);
-                }
-                Statement::If(i) => {
-                    definition_ranges(&i.then_block, out);
-                    if let Some(e) = &i.else_block {
-                        definition_ranges(e, out);
-                    }
-                }
-                Statement::While(w) => definition_ranges(&w.block, out),
-                Statement::Until(u) => definition_ranges(&u.block, out),
-                _ => {}
+    fn prim(&mut self, p: &PrimaryExpression) {
+        match p {
+            PrimaryExpression::Literal(_) => {}
+            PrimaryExpression::Identifier(i) => self.ident(i),
+            PrimaryExpression::ArraySubscript(a) => self.sub(a),
+            PrimaryExpression::FunctionCall(f) => self.call(f),
+            PrimaryExpression::ArrayPop(a) => self.prim(&a.array),
+        }
+    }
+    fn sub(&mut self, a: &ArraySubscript) {
+        self.prim(&a.array);
+        self.prim(&a.subscript);
+    }
+    fn call(&mut self, f: &FunctionCall) {
+        self.name(&f.name, Role::Callee);
+        for a in &f.args {
+            self.expr(a);
+        }
+    }
+    fn expr(&mut self, e: &Expression) {
+        match e {
+            Expression::PrimaryExpression(p) => self.prim(p),
+            Expression::BinaryExpression(b) => {
+                self.expr(&b.lhs);
+                self.list(&b.rhs);
             }
+            Expression::UnaryExpression(u) => self.expr(&u.operand),
+        }
+    }
+    fn list(&mut self, l: &ExpressionList) {
+        for e in l.iter() {
+            self.expr(e);
+        }
+    }
+    fn lhs(&mut self, l: &AssignmentLHS) {
+        match l {
+            AssignmentLHS::Identifier(i) => self.ident(i),
+            AssignmentLHS::ArraySubscript(a) => self.sub(a),
+        }
+    }
+    fn block(&mut self, b: &Block) {
+        if let Block::NonEmpty(ss) = b {
+            for s in ss {
+                self.stmt(s);
+            }
+        }
+    }
+    fn stmt(&mut self, s: &Statement) {
+        match s {
+            Statement::Assignment(a) => {
+                self.lhs(&a.dest);
+                match &a.value {
+                    AssignmentRHS::ExpressionList(l) => self.list(l),
+                }
+            }
+            Statement::PoeticAssignment(PoeticAssignment::Number(a)) => {
+                self.lhs(&a.dest);
+                if let PoeticNumberAssignmentRHS::Expression(e) = &a.rhs {
+                    self.expr(e);
+                }
+            }
+            Statement::PoeticAssignment(PoeticAssignment::String(a)) => self.lhs(&a.dest),
+            Statement::If(i) => {
+                self.expr(&i.condition);
+                self.block(&i.then_block);
+                if let Some(e) = &i.else_block {
+                    self.block(e);
+                }
+            }
+            Statement::While(w) => {
+                self.expr(&w.condition);
+                self.block(&w.block);
+            }
+            Statement::Until(u) => {
+                self.expr(&u.condition);
+                self.block(&u.block);
+            }
+            Statement::Inc(i) => self.ident(&i.dest),
+            Statement::Dec(d) => self.ident(&d.dest),
+            Statement::Input(i) => {
+                if let Some(d) = i.dest.opt() {
+                    self.lhs(d);
+                }
+            }
+            Statement::Output(o) => self.expr(&o.value),
+            Statement::Mutation(m) => {
+                self.prim(&m.operand);
+                if let Some(d) = &m.dest {
+                    self.lhs(d);
+                }
+                if let Some(p) = &m.param {
+                    self.expr(p);
+                }
+            }
+            Statement::Rounding(r) => self.expr(&r.operand),
+            Statement::Continue(_) | Statement::Break(_) => {}
+            Statement::ArrayPush(a) => {
+                self.prim(&a.array);
+                if let Some(ArrayPushRHS::ExpressionList(l)) = &a.value {
+                    self.list(l);
+                }
+            }
+            Statement::ArrayPop(a) => {
+                self.prim(&a.expr.array);
+                if let Some(d) = &a.dest {
+                    self.lhs(d);
+                }
+            }
+            Statement::Return(r) => self.expr(&r.value),
+            Statement::Function(f) => {
+                self.name(&f.name, Role::Definition);
+                for p in &f.data.params {
+                    self.name(p, Role::Definition);
+                }
+                self.block(&f.data.body);
+            }
+            Statement::FunctionCall(f) => self.call(f),
         }
     }
 }
@@ -204,17 +269,14 @@ pub fn check_program(ctx: &mut Ctx, prog: &Program, src: &str, origin: &str) {
         }
     }
     // the repeated-identifier rule
-    let mut rec = MentionRecorder { mentions: Vec::new(), definition_ranges: Vec::new(), next_is_callee: false };
+    let mut rec = Mentions(Vec::new());
     for b in &prog.code {
-        definition_ranges(b, &mut rec.definition_ranges);
+        rec.block(b);
     }
-    let mut runner = ExprVisitorRunner::with_inner(rec);
-    let _ = runner.visit_program(prog);
-    let rec = runner.inner();
-    let classes = classify(&rec.mentions);
+    let classes = classify(&rec.0);
     let key = |line: u32, text: &str| format!("{}\u{1}{}", line, text);
     let mut must: std::collections::BTreeMap<String, (usize, usize)> = Default::default();
-    for (m, c) in rec.mentions.iter().zip(classes.iter()) {
+    for (m, c) in rec.0.iter().zip(classes.iter()) {
         let e = must.entry(key(m.line, &m.text)).or_insert((0, 0));
         match c {
             Class::Must => {
